@@ -448,7 +448,14 @@ impl Emitter {
                     None => {
                         if *zero_left {
                             let _ = write!(self.out, "0 {} ", sort.flipped());
-                            self.term(fst, 4);
+                            // (known finding D9) the formatter prints this form as `t op 0`, so an
+                            // operand ending in the token 0 would be merged with the operator
+                            let s = Emitter::term_to_string(fst, 4);
+                            if last_token_is_zero(&s) || first_token_is_zero(&s) {
+                                let _ = write!(self.out, "({s})");
+                            } else {
+                                self.out.push_str(&s);
+                            }
                         } else {
                             // the operand must not end in a literal 0 token only when a
                             // *different* combined token would be formed; `t == 0` is what we
